@@ -137,6 +137,7 @@ func runConc(c Case) (res *vkit.Result) {
 	}
 	// one signing key throughout: rotation and roll-over belong to the sequential check
 	c.Rotate, c.Roll, c.UseMode, c.Earlier, c.Other = nil, nil, "", nil, nil
+	c.Fault = nil
 	hook := &claimHook{}
 	st, sut, err := buildProvider(c, clients, hook)
 	if err != nil {
